@@ -89,7 +89,7 @@ func regexReadings(f string) []string {
 	for i := 1; i < len(f); i++ {
 		if f[i] == '+' {
 			out = append(out, f[:i]+string(f[i-1])+f[i+1:]) // "a+b" -> "aab"
-			out = append(out, f[:i]+f[i+1:])                  // "a+b" -> "ab"
+			out = append(out, f[:i]+f[i+1:])                // "a+b" -> "ab"
 		}
 	}
 	if i := strings.IndexByte(f, '['); i >= 0 {
